@@ -34,10 +34,33 @@ def run(run, tier, seed):
     finish(run, events, "c17", tier)
 
 
-def replay_entries(run, tier, seed, module="MC_LoGraph", tag="c17-graph", nq=400, nt=6000):
-    """B for the first two stages of ska lo: MC_LoGraph's scenarios (graph construction + entry nodes, checked by
-    TLC against 'the (k-1)-mers flanking each variable site') are run through `ska build -k 5` + `ska lo`; the
-    hooked binary logs its entry nodes, which must be the model's."""
+def _wellformed(cols, nsamp, mnum=100, mden=1000):
+    """C17's clause for every run: every column has >= 2 distinct A/C/G/T and at most the allowed fraction of others"""
+    for c in cols:
+        if len(c) != nsamp or len({x for x in c if x in "ACGT"}) < 2:
+            return False
+        if sum(1 for x in c if x not in "ACGT") * mden > mnum * nsamp:
+            return False
+    return True
+
+
+_COMP = str.maketrans("ACGT", "TGCA")
+
+
+def _canon(cols):
+    return sorted(min(c, c.translate(_COMP)) for c in cols)
+
+
+def replay_entries(run, tier, seed, module="MC_LoGraph", tag="c17-graph", nq=400, nt=6000, declarative=True):
+    """B for `ska lo` without a reference: the scenarios of a TLC universe run through `ska build` + the hooked `ska lo`.
+
+    Two kinds of outcome are kept apart (DESIGN I.8):
+    * CONFORMANCE of the implementation-shaped model (LoGraph/LoCall): entry nodes, SNP groups, indel groups (hooks), SNP
+      columns and indel records (files) are compared with the model's; a difference is MODEL DRIFT (the model no longer
+      describes the code): counted, printed, never a violation - a change of heuristics that keeps the property is not an alarm.
+    * the property's own DECLARATIVE clauses, where the scenario lies in its stated domain (`declarative`, C17 at k = 7): under
+      the precondition the SNP alignment must consist of exactly the true columns of the substituted sites (up to order and
+      complement); in every run every column must be well formed; the command must not fail. These are violations."""
     import random, concurrent.futures, skacli
     from props.c11 import run_cmd
     d = vlib.design_check(module, module + "_quick" if tier == "quick" else module, tag, workers=12,
@@ -47,80 +70,103 @@ def replay_entries(run, tier, seed, module="MC_LoGraph", tag="c17-graph", nq=400
     rng = random.Random(seed)
     rng.shuffle(behs)
     behs = behs[:int(os.environ.get("VERIF_LOGRAPH_N", nq if tier == "quick" else nt))]
-    sb = skacli.Sandbox("c17g")
+    letters = lambda ds: "".join("ACTG"[x] for x in ds)
 
     def one(args):
         i, beh = args
-        sub = skacli.Sandbox("c17g%d" % i)
+        sub = skacli.Sandbox("%s%d" % (tag.replace("-", ""), i))
+        drift, decl = [], None
         try:
             sub.reset()
             samples = [[bytes(x).decode()] for x in beh["samples"]]
-            e = sub.build("g", samples, ["g%d" % j for j in range(len(samples))], beh["k"], True)
+            nsamp = len(samples)
+            e = sub.build("g", samples, ["g%d" % j for j in range(nsamp)], beh["k"], True)
             if not e.get("ok"):
-                return {"ok": False, "why": "build failed"}
+                return {"drift": ["build failed"], "decl": None}
             tr = os.path.join(sub.dir, "tr.ndjson")
-            rc, so, se, hook = run_cmd(["lo", sub.path("g"), os.path.join(sub.dir, "out")], tr)
+            out = os.path.join(sub.dir, "out")
+            rc, so, se, hook = run_cmd(["lo", sub.path("g"), out], tr)
+            err = se.decode(errors="replace")
+            refused = rc != 0 and "no entry node" in err
+            # ---- conformance with the model -------------------------------------------------------------------
             ent = [h for h in hook if h["ev"] == "lo.entries"]
             if len(ent) != 1:
-                return {"ok": False, "why": "no lo.entries event (rc=%d): %s" % (rc, se.decode(errors="replace")[-150:])}
-            got = sorted(vlib.digits(x) for x in ent[0]["entries"])
-            want = sorted(beh["entries"])
-            if got != want or ent[0]["nodes"] != beh["nodes"]:
-                return {"ok": False, "why": "entry nodes differ", "expected": [want, beh["nodes"]], "actual": [got, ent[0]["nodes"]]}
-            # third stage: the variant groups and indel groups after traversal (hook lo.groups) against LoGraph!FinalGroups /
-            # FinalIndels - entry, exit and the multiset of spelled paths of every group
-            letters = lambda ds: "".join("ACTG"[d] for d in ds)
+                drift.append("no lo.entries event")
+            elif sorted(vlib.digits(x) for x in ent[0]["entries"]) != sorted(beh["entries"]) or ent[0]["nodes"] != beh["nodes"]:
+                drift.append("entry nodes")
             for kind in ("groups", "indels"):
                 real = [h for h in hook if h["ev"] == "lo.groups" and h["kind"] == kind]
                 if len(real) != 1:
-                    return {"ok": False, "why": "no lo.groups event for " + kind}
+                    if not refused:
+                        drift.append("no lo.groups event")
+                    continue
                 g_real = sorted([g["entry"], g["exit"], sorted(g["seqs"])] for g in real[0]["groups"])
                 g_model = sorted([letters(g["entry"]), letters(g["exit"]), sorted(letters(q) for q in g["seqs"])] for g in beh[kind])
                 if g_real != g_model:
-                    return {"ok": False, "why": "variant %s differ from LoGraph's" % kind, "expected": g_model, "actual": g_real}
-            # fourth stage: the calls themselves (LoCall.tla): the multiset of SNP columns and the set of indel records
-            if "columns" in beh:
-                out = os.path.join(sub.dir, "out")
-                if beh["panic"]:
-                    return {"ok": rc != 0, "why": "LoCall says the code indexes a path out of range here, but the run succeeded"}
-                if rc != 0:
-                    return {"ok": False, "why": "ska lo failed: " + se.decode(errors="replace")[-150:]}
+                    drift.append("variant " + kind)
+            c_real = None
+            if rc == 0:
                 nm, seqs = vlib.parse_fasta_text(open(out + "_snps.fas").read()) if os.path.exists(out + "_snps.fas") else ([], [])
                 n = len(seqs[0]) if seqs else 0
                 c_real = sorted("".join(x[j] for x in seqs) for j in range(n))
-                c_model = sorted("".join(chr(x) for x in col) for col in beh["columns"])
-                if c_real != c_model:
-                    return {"ok": False, "why": "SNP columns differ from LoCall's", "expected": c_model, "actual": c_real}
-                r_real = sorted([r["ref"], r["alt"], r["before"], r["after"], r["gts"]] for r in lodrv.parse_indel_vcf(open(out + "_indels.vcf").read()))
-                gt = {0: "0", 1: "1", 2: "0/1", 3: "."}
-                by = lambda ds: [ord(c) for c in letters(ds)]
-                r_model = sorted([by(r["ref"]), by(r["alt"]), by(r["before"]), by(r["after"]), [gt[x] for x in r["gts"]]]
-                                 for r in beh["records"])
-                if r_real != r_model:
-                    return {"ok": False, "why": "indel records differ from LoCall's", "expected": r_model, "actual": r_real}
-            return {"ok": True}
+            if "columns" in beh:
+                if beh["panic"]:
+                    if rc == 0:
+                        drift.append("model predicts an out-of-range index, the run succeeded")
+                elif rc != 0:
+                    if not (refused and not beh["entries"]):
+                        drift.append("run failed where the model yields calls")
+                else:
+                    if c_real != sorted("".join(chr(x) for x in col) for col in beh["columns"]):
+                        drift.append("SNP columns")
+                    r_real = sorted([r["ref"], r["alt"], r["before"], r["after"], r["gts"]]
+                                    for r in lodrv.parse_indel_vcf(open(out + "_indels.vcf").read()))
+                    gt = {0: "0", 1: "1", 2: "0/1", 3: "."}
+                    by = lambda ds: [ord(c) for c in letters(ds)]
+                    r_model = sorted([by(r["ref"]), by(r["alt"]), by(r["before"]), by(r["after"]), [gt[x] for x in r["gts"]]]
+                                     for r in beh["records"])
+                    if r_real != r_model:
+                        drift.append("indel records")
+            # ---- the property's own clauses ---------------------------------------------------------------------
+            if declarative:
+                if rc != 0 and not refused:
+                    decl = "ska lo failed: " + err[-150:]
+                elif rc == 0 and not _wellformed(c_real, nsamp):
+                    decl = "a column of the SNP alignment is not well formed: %s" % c_real
+                elif beh.get("pre"):
+                    truth = ["".join(chr(x) for x in col) for col in beh["truth"] if len(set(col)) > 1]
+                    if rc != 0 or _canon(c_real) != _canon(truth):
+                        decl = "precondition holds: SNP alignment %s is not the true columns %s" % (c_real, truth)
+            return {"drift": drift, "decl": decl}
         finally:
             sub.close()
 
-    try:
-        with concurrent.futures.ThreadPoolExecutor(max_workers=12) as ex:
-            res = list(ex.map(one, list(enumerate(behs))))
-    finally:
-        sb.close()
+    with concurrent.futures.ThreadPoolExecutor(max_workers=12) as ex:
+        res = list(ex.map(one, list(enumerate(behs))))
     run.replayed += len(behs)
+    ndrift = 0
     for beh, v in zip(behs, res):
-        if not v["ok"]:
-            run.fail({"kind": "replay", "behaviour": beh, "verdict": v}, "ska lo entry nodes diverge from LoGraph: %s" % v["why"])
-        else:
-            run.nontriv(["entries", beh["samples"]])
+        if v["decl"]:
+            run.fail({"kind": "replay", "behaviour": beh, "verdict": v}, "ska lo on a TLC scenario: %s" % v["decl"])
+        if v["drift"]:
+            ndrift += 1
+            if ndrift <= 3:
+                vlib.log("MODEL DRIFT (%s): %s differ from the model on samples %s" %
+                         (module, ", ".join(v["drift"]), [bytes(x).decode() for x in beh["samples"]]))
+        if not v["decl"] and not v["drift"]:
+            run.nontriv(["lo-replay", module, beh["samples"]])
+    run.drift += ndrift
+    run.extra["%s_scenarios_replayed" % module] = len(behs)
+    run.extra["%s_scenarios_with_model_drift" % module] = ndrift
     if behs:
-        run.sample({"replayed_behaviour": behs[0]})
+        run.sample({"replayed_behaviour": {k_: behs[0][k_] for k_ in ("k", "samples", "entries", "columns") if k_ in behs[0]}})
 
 
 def replay_ref(run, tier, seed):
-    """B for `ska lo -r`: MC_LoRef's scenarios (LoCall!LoCallRef at k = 7; design theorem: a placed site is at its true
-    coordinate with the true alleles and the pseudo-genomes are the reference with each sample's allele) through
-    `ska build -k 7` + `ska lo -r ref.fa`: SNP alignment, VCF records and pseudo-genomes must be the model's."""
+    """Conformance of LoCall!LoCallRef (`ska lo -r`) on MC_LoRef's scenarios (k = 7; design theorem: a placed site is at its
+    true coordinate with the true alleles and the pseudo-genomes are the reference with each sample's allele): SNP alignment,
+    VCF records and pseudo-genomes of the real run are compared with the model's. Reference mode below k = 15 is outside C17's
+    stated domain: differences are MODEL DRIFT, not violations (the declarative verdicts for -r come from the lo.snps events)."""
     import random, concurrent.futures, skacli
     d = vlib.design_check("MC_LoRef", "MC_LoRef_quick" if tier == "quick" else "MC_LoRef", "c17-ref", workers=12,
                           timeout=3000, want_replay=True)
@@ -138,21 +184,20 @@ def replay_ref(run, tier, seed):
             samples = [[bytes(x).decode()] for x in beh["samples"]]
             e = sub.build("g", samples, ["g%d" % j for j in range(len(samples))], beh["k"], True)
             if not e.get("ok"):
-                return {"ok": False, "why": "build failed"}
+                return ["build failed"]
             ref = os.path.join(sub.dir, "ref.fa")
             open(ref, "w").write(">anc\n%s\n" % bytes(beh["ref"]).decode())
             out = os.path.join(sub.dir, "out")
             rc, so, se = vlib.ska_cli(["lo", sub.path("g"), out, "-r", ref])
             if beh["panic"]:
-                return {"ok": rc != 0, "why": "LoCallRef says the code indexes a path out of range here, but the run succeeded"}
+                return [] if rc != 0 else ["model predicts an out-of-range index, the run succeeded"]
             if rc != 0:
-                return {"ok": False, "why": "ska lo -r failed: " + se.decode(errors="replace")[-150:]}
+                return ["run failed: " + se.decode(errors="replace")[-100:]]
+            drift = []
             nm, seqs = vlib.parse_fasta_text(open(out + "_snps.fas").read())
             n = len(seqs[0]) if seqs else 0
-            c_real = ["".join(x[j] for x in seqs) for j in range(n)]
-            c_model = ["".join(chr(x) for x in col) for col in beh["columns"]]
-            if c_real != c_model:
-                return {"ok": False, "why": "SNP alignment differs from LoCallRef's", "expected": c_model, "actual": c_real}
+            if ["".join(x[j] for x in seqs) for j in range(n)] != ["".join(chr(x) for x in col) for col in beh["columns"]]:
+                drift.append("SNP alignment")
             v_real = []
             for line in open(out + "_snps.vcf"):
                 if not line.startswith("#"):
@@ -161,23 +206,29 @@ def replay_ref(run, tier, seed):
             v_model = [[r["pos"], chr(r["ref"]), ",".join(chr(x) for x in r["alt"]), ["." if x < 0 else str(x) for x in r["gts"]]]
                        for r in beh["vcf"]]
             if v_real != v_model:
-                return {"ok": False, "why": "VCF records differ from LoCallRef's", "expected": v_model, "actual": v_real}
+                drift.append("VCF records")
             pn, pseq = vlib.parse_fasta_text(open(out + "_pseudo_genomes.fas").read())
-            p_model = ["".join(chr(x) for x in s_) for s_ in beh["pseudo"]]
-            if pseq != p_model:
-                return {"ok": False, "why": "pseudo-genomes differ from LoCallRef's", "expected": p_model, "actual": pseq}
-            return {"ok": True}
+            if pseq != ["".join(chr(x) for x in s_) for s_ in beh["pseudo"]]:
+                drift.append("pseudo-genomes")
+            return drift
         finally:
             sub.close()
 
     with concurrent.futures.ThreadPoolExecutor(max_workers=12) as ex:
         res = list(ex.map(one, list(enumerate(behs))))
     run.replayed += len(behs)
+    ndrift = 0
     for beh, v in zip(behs, res):
-        if not v["ok"]:
-            run.fail({"kind": "replay", "behaviour": beh, "verdict": v}, "ska lo -r diverges from LoCallRef: %s" % v["why"])
+        if v:
+            ndrift += 1
+            if ndrift <= 3:
+                vlib.log("MODEL DRIFT (MC_LoRef): %s differ from the model on samples %s ref %s" %
+                         (", ".join(v), [bytes(x).decode() for x in beh["samples"]], bytes(beh["ref"]).decode()))
         elif beh["placed"]:
             run.nontriv(["loref", beh["samples"], beh["ref"]])
+    run.drift += ndrift
+    run.extra["MC_LoRef_scenarios_replayed"] = len(behs)
+    run.extra["MC_LoRef_scenarios_with_model_drift"] = ndrift
     run.extra["loref_scenarios_placed"] = sum(1 for b_ in behs if b_["placed"])
 
 
